@@ -19,7 +19,7 @@ ASSUMPTIONS = ["thread interleavings are sampled (yield injection + repetition),
                "the strict peer is the responder double of vf/noisepeer.py (dissononce cipher states, counters only move forward)",
                "besides the probe-level runs, 24 (quick) / 960 (thorough) runs, with thread switches injected inside the dispatchers, go through the library's real socket and asyncore dispatchers over loopback TCP",
                "senders start after the handshake completed, as applications do (the handshake thread's own writes are covered by C04)"]
-REQUIRED = ["real_backlog_cases", "real_backlog_ok", "real_backlog:local-disconnect", "real_backlog:peer-reset", "runs", "stanzas_sent", "stanzas_decrypted", "interleaved_runs", "yields_injected", "ping_thread_runs", "entry:top",
+REQUIRED = ["real_big_cases", "real_big_ok", "real_big:socket", "real_big:asyncore", "real_backlog_cases", "real_backlog_ok", "real_backlog:local-disconnect", "real_backlog:peer-reset", "runs", "stanzas_sent", "stanzas_decrypted", "interleaved_runs", "yields_injected", "ping_thread_runs", "entry:top",
             "entry:sendIq", "entry:below-group", "early_sender_runs", "refused_during_handshake", "stalled_write_runs", "stalled_write_ok", "s2c_flood_runs", "s2c_flood_frames", "real_runs", "real_ok", "wire_bytes_equal", "real:socket", "real:asyncore"]
 TIMEOUT = {"quick": 400, "thorough": 3600}
 
@@ -634,6 +634,92 @@ def real_backlog_reconnect_case(acc, seed, tag, dispatcher_name):
         srv.stop()
 
 
+def real_big_stanza_case(acc, seed, tag, dispatcher_name, prop="C11"):
+    """Real dispatcher: the peer does not read for a moment while one thread sends a stanza larger than the socket buffers and
+    others send small ones; when the peer reads again everything must arrive whole, once and in each sender's order, and the socket
+    must have carried exactly the bytes handed to the network layer."""
+    from vf import realnet
+    from yowsup.structs import ProtocolTreeNode
+    from yowsup.layers.network import YowNetworkLayer
+    from yowsup.layers.auth import YowAuthenticationProtocolLayer
+    r = gen.rng(seed, prop, tag)
+    disp = YowNetworkLayer.DISPATCHER_SOCKET if dispatcher_name == "socket" else YowNetworkLayer.DISPATCHER_ASYNCORE
+    srv = realnet.LoopServer()
+    srv.start()
+    c = realnet.RealClient("%sbig_%s" % (prop.lower(), tag.replace("/", "_")), srv.port, disp)
+    w = {"tag": tag, "dispatcher": dispatcher_name, "kind": "big-stanza"}
+    acc.count("real_big_cases")
+    acc.count("real_big:" + dispatcher_name)
+    try:
+        c.start_loop()
+        c.connect_async()
+        if not c.wait(lambda: c.events(YowAuthenticationProtocolLayer.EVENT_AUTHED) >= 1, 20):
+            acc.inconc("%s: login over loopback did not complete" % tag)
+            return
+        conn = srv.conns[0]
+        size = r.choice([6, 9, 12]) * (1 << 20)
+        w["size"] = size
+        conn.stalled = True
+        errors = []
+
+        def big():
+            try:
+                c.app.toLower(BlobIq(ProtocolTreeNode("iq", {"id": "big-0", "type": "set", "xmlns": "w"}, [ProtocolTreeNode("blob", {}, None, gen.blob(r, 256) * (size // 256))])))
+                c.app.toLower(BlobIq(ProtocolTreeNode("iq", {"id": "big-1", "type": "set", "xmlns": "w"}, None, None)))
+            except Exception as e:  # noqa
+                errors.append(("big", type(e).__name__, str(e)[:200]))
+
+        def small(k):
+            rr = random.Random(k)
+            try:
+                for i in range(6):
+                    c.app.toLower(BlobIq(payload_node(rr, "s%d-%d" % (k, i))))
+            except Exception as e:  # noqa
+                errors.append(("small", type(e).__name__, str(e)[:200]))
+        ths = [threading.Thread(target=big, name="verif-big")] + [threading.Thread(target=small, args=(k,), name="verif-small-%d" % k) for k in range(2)]
+        for t in ths:
+            t.daemon = True
+            t.start()
+        time.sleep(r.choice([0.3, 1.0, 2.5]))
+        conn.stalled = False
+        for t in ths:
+            t.join(60)
+        if any(t.is_alive() for t in ths):
+            acc.violation("real-big:sender-stuck:%s" % dispatcher_name, "a sender did not return within 60 s after the peer had started reading again", w)
+            return
+        if errors:
+            acc.violation("real-big:send-raises:%s:%s" % (dispatcher_name, errors[0][1]), "a sender got %s: %s" % (errors[0][1], errors[0][2]), w)
+            return
+        want = ["big-0", "big-1"] + ["s%d-%d" % (k, i) for k in range(2) for i in range(6)]
+        c.wait(lambda: conn.srv.state == "error" or all(i in set(t[1].get("id") for t in conn.stanzas) for i in want), 60)
+        sent_b = sum(len(x) for x in list(c.probe_low.sent))
+        if conn.srv.state == "error":
+            acc.violation("real-big:stream-corrupt:%s" % dispatcher_name, "a %d byte stanza sent while the peer was not reading: the stream cannot be parsed/decrypted any more (%s); handed to the network "
+                          "layer %d bytes, the socket carried %d" % (size, conn.srv.errors, sent_b, len(conn.raw)), w)
+            return
+        got = [t[1].get("id") for t in conn.stanzas]
+        bad_ = [i for i in want if got.count(i) != 1]
+        if bad_:
+            acc.violation("real-big:exactly-once:%s" % dispatcher_name, "stanzas %s arrived not exactly once (handed to the network layer %d bytes, the socket carried %d; client still connected: %s)"
+                          % (bad_[:4], sent_b, len(conn.raw), c.net.getStatus()), w)
+            return
+        for k in ("big", "s0", "s1"):
+            seq = [i for i in got if str(i).startswith(k + "-")]
+            if seq != sorted(seq, key=lambda x: int(x.split("-")[1])):
+                acc.violation("real-big:order:%s" % dispatcher_name, "sender %s's stanzas arrived as %s" % (k, seq), w)
+                return
+        acc.count("real_big_ok")
+        acc.case(["real-big", tag], nontrivial=True)
+    finally:
+        try:
+            c.app.disconnect()
+        except Exception:
+            pass
+        c.stop_loop()
+        time.sleep(0.05)
+        srv.stop()
+
+
 def make_desc(r):
     k = r.choice([2, 3, 4])
     entries = [r.choice(["top", "sendIq", "below-group"]) for _ in range(k)]
@@ -653,6 +739,8 @@ def shards(tier, seed, nworkers):
     for dname in ("socket", "asyncore"):
         for k in range(1 if q else 6):
             specs.append({"kind": "real-backlog", "dispatcher": dname, "rep": k, "n": 3 if q else 10})
+        for k in range(1 if q else 4):
+            specs.append({"kind": "real-big", "dispatcher": dname, "rep": k, "n": 2 if q else 6})
     return specs
 
 
@@ -662,6 +750,11 @@ def run(spec, acc):
     if spec["kind"] == "stalled":
         stalled_write_run(acc, spec["seed"], "stalled/%d" % spec["rep"])
         acc.sample({"stalled_write": "sender stuck 6.5 s between header and payload while the keep-alive comes due"})
+        return
+    if spec["kind"] == "real-big":
+        for i in range(spec["n"]):
+            real_big_stanza_case(acc, spec["seed"], "big/%s/%d/%d" % (spec["dispatcher"], spec["rep"], i), spec["dispatcher"])
+        acc.sample({"real_big_stanza": "a 6-12 MB stanza and small ones sent while the peer is not reading for 0.3-2.5 s", "dispatcher": spec["dispatcher"]})
         return
     if spec["kind"] == "real-backlog":
         for i in range(spec["n"]):
@@ -689,5 +782,13 @@ def replay(spec, acc):
     from vf import env
     env.shim_thirdparty()
     w = spec["witness"]
+    if w.get("kind") == "big-stanza":
+        return real_big_stanza_case(acc, spec["seed"], w["tag"], w["dispatcher"])
+    if w.get("kind") == "backlog-reconnect":
+        return real_backlog_reconnect_case(acc, spec["seed"], w["tag"], w["dispatcher"])
+    if w.get("kind") == "stalled-write":
+        return stalled_write_run(acc, spec["seed"], w["tag"])
+    if "desc" not in w:
+        return real_run(acc, spec["seed"], w["tag"], w["dispatcher"], w["threads"], w["per_thread"])
     for _ in range(10):
         one_run(acc, spec["seed"], w["tag"], w["desc"])
